@@ -1598,6 +1598,9 @@ def getitem(I_, obj, idx, st, ctx, k, node=None):
   if isinstance(idx, Union):
     return I_.split(idx, st, lambda st2, i: getitem(I_, obj, i, st2, ctx, k, node))
   where = I_.where(ctx, node)
+  if isinstance(obj, ExcVal):
+    # Python 3: exception objects are not subscriptable (e[0] was Python 2)
+    return I_.raise_exc(st, ctx, TypeError, "'%s' object is not subscriptable" % obj.cls.__name__, node)
   if isinstance(obj, z3.ArrayRef):
     return k(st, concretize(z3.Select(obj, zint(idx))))
   if isinstance(obj, WordArr):
